@@ -12,7 +12,8 @@ pub struct C19;
 const SHARED_SLOT: u8 = 3;
 
 fn thread_call(rng: &mut Rng, tid: usize, sc: &mut Scenario, have_files: &mut bool) -> Call {
-    let src = match rng.below(12) {
+    let src = match rng.below(13) {
+        12 => gen::netlist_program(rng),
         10 | 11 => {
             // several threads deep inside nested constructs at the same time (a shared budget shows only then)
             let d = 14 + rng.usize_below(14);
@@ -20,7 +21,10 @@ fn thread_call(rng: &mut Rng, tid: usize, sc: &mut Scenario, have_files: &mut bo
         }
         0 | 1 | 2 => gen::polluter(rng),
         3 | 4 | 5 => gen::sensitive_probe(rng),
-        6 => gen::corpus_sv(rng, 1200).to_string(),
+        6 => {
+            let t = gen::corpus_sv(rng, 1200).to_string();
+            if rng.coin() { gen::rewrap_nonansi(&t) } else { t }
+        }
         7 => {
             let t = gen::corpus_sv(rng, 1000).to_string();
             gen::inject_directives(rng, &t)
@@ -191,6 +195,28 @@ impl Property for C19 {
         } else {
             sc.family = "distinct-buffers".into();
         }
+        if rng.chance(1, 24) {
+            // every thread descends its own long include chain: together they hold far more nested files
+            // open than any one call could (a shared budget or pool shows only then)
+            let nt = 3 + rng.usize_below(2);
+            let mut deep: Vec<Vec<Op>> = vec![];
+            for t in 0..nt {
+                let depth = 45 + rng.below(18);
+                let dir = format!("/d{}", t);
+                for i in 0..=depth {
+                    let body = if i < depth { format!("// level {}\n`include \"c{}.svh\"\nwire l{}_{};\n", i, i + 1, t, i) } else { format!("wire leaf{};\n", t) };
+                    sc.vfs.push(VNode::file(&format!("{}/c{}.svh", dir, i), &body));
+                }
+                let mut c = Call::new(Api::Preprocess, &format!("{}/c0.svh", dir));
+                c.include_paths = vec![dir.clone()];
+                deep.push(vec![Op::Call(c)]);
+            }
+            sc.threads = deep;
+            sc.expect = serde_json::json!({});
+            sc.family = "deep-includes".into();
+            sc.schedule = Schedule::Random { num: 1, den: 8, seed: rng.next() };
+            return sc;
+        }
         if rng.chance(1, 16) {
             // a crowd: more threads in one process than any fixed-size per-thread table would hold. Two
             // directive- and comment-heavy workers, and 127..134 one-shot threads between them
@@ -267,6 +293,17 @@ impl Property for C19 {
         rep.execs += 1;
         rep.steps += out.steps;
         rep.fire(&out.fired);
+        if let Some(a) = &out.aborted {
+            // every program returned when run alone (the references above), together they did not
+            let mut v = crate::runner::abort_violation("C19", a);
+            v.clause = "C19.concurrent_calls_return".into();
+            v.kind = if a.starts_with("watchdog") { "hang".into() } else { "abort".into() };
+            v.detail = format!("{} threads: every thread's program returns when run alone; run together the process {}", sc.threads.len(), a);
+            rep.violations.push(v);
+            rep.nontrivial = true;
+            rep.distinct_key = sc.hash();
+            return rep;
+        }
         if let Some(e) = &out.harness_error {
             rep.harness_error = Some(e.clone());
             return rep;
